@@ -58,14 +58,18 @@ pub struct Sweep {
     /// None: single input; Some((other input's sequence, signed index))
     pub other: Option<(u32, usize)>,
     pub outs: OutP,
+    /// the node runs the chain-aware validator (a wrapper that delegates these requests)
+    #[serde(default)]
+    pub onchain: bool,
 }
 
 struct Ctx {
     ch: Chan,
 }
 
-fn make_ctx(anchors: bool) -> Ctx {
+fn make_ctx(anchors: bool, onchain: bool) -> Ctx {
     let mut cfg = WorldCfg::default();
+    cfg.onchain = onchain;
     cfg.oracle_pubkeys = vec![oracle_pub(0)];
     cfg.policy = Some(policy_with(|p| {
         p.min_feerate_per_kw = 500;
@@ -270,7 +274,11 @@ fn sweeps(tier: Tier) -> Vec<Sweep> {
                                 if tier == Tier::Quick && version != 2 && o != OutP::Wallet {
                                     continue;
                                 }
-                                v.push(Sweep { anchors, kind, version, locktime, seq, other: *other, outs: o });
+                                v.push(Sweep { anchors, kind, version, locktime, seq, other: *other, outs: o, onchain: false });
+                                if other.is_none() {
+                                    // single-input sweeps once more under the chain-aware validator
+                                    v.push(Sweep { anchors, kind, version, locktime, seq, other: *other, outs: o, onchain: true });
+                                }
                             }
                         }
                     }
@@ -317,6 +325,9 @@ pub struct HCase {
     pub counterparty: bool,
     pub offered: bool,
     pub muts: Vec<HMut>,
+    /// the node runs the chain-aware validator
+    #[serde(default)]
+    pub onchain: bool,
 }
 
 fn hmuts() -> Vec<HMut> {
@@ -521,7 +532,9 @@ pub fn main(tier: Tier) -> i32 {
         for counterparty in [false, true] {
             for offered in [false, true] {
                 for s in dev_sets(ms.len(), tier.pick(1, 2)) {
-                    hc.push(HCase { anchors, counterparty, offered, muts: s.iter().map(|i| ms[*i].clone()).collect() });
+                    for onchain in [false, true] {
+                        hc.push(HCase { anchors, counterparty, offered, muts: s.iter().map(|i| ms[*i].clone()).collect(), onchain });
+                    }
                 }
             }
         }
@@ -537,18 +550,18 @@ pub fn main(tier: Tier) -> i32 {
     jobs.extend(hc.iter().cloned().map(Job::H));
     let chunks: Vec<Vec<Job>> = jobs.chunks((jobs.len() + threads - 1) / threads).map(|c| c.to_vec()).collect();
     let results = par_map(&chunks, threads, |chunk| {
-        let ctxs = [make_ctx(false), make_ctx(true)];
+        let ctxs = [make_ctx(false, false), make_ctx(true, false), make_ctx(false, true), make_ctx(true, true)];
         let mut out = vec![];
         for j in chunk {
             match j {
                 Job::S(s) => {
-                    let (class, vio) = run_sweep(&ctxs[s.anchors as usize], s);
-                    out.push((format!("sweep|{:?}|{}|v{}|{}", s.kind, s.anchors, s.version, class), class.starts_with("accepted"), vio, json!({"engine": "c09", "sweep": s})));
+                    let (class, vio) = run_sweep(&ctxs[s.anchors as usize + 2 * s.onchain as usize], s);
+                    out.push((format!("sweep|{:?}|{}{}|v{}|{}", s.kind, s.anchors, if s.onchain { "|onchain" } else { "" }, s.version, class), class.starts_with("accepted"), vio, json!({"engine": "c09", "sweep": s})));
                 }
                 Job::H(h) => {
-                    let (class, vio) = run_htlc(&ctxs[h.anchors as usize], h);
+                    let (class, vio) = run_htlc(&ctxs[h.anchors as usize + 2 * h.onchain as usize], h);
                     let kinds: Vec<String> = h.muts.iter().map(|m| format!("{:?}", m).split('(').next().unwrap().to_string()).collect();
-                    out.push((format!("htlc|{}|{}|{}|{}|{}", h.anchors, h.counterparty, h.offered, kinds.join("+"), class), class.starts_with("accepted"), vio, json!({"engine": "c09", "htlc": h})));
+                    out.push((format!("htlc|{}{}|{}|{}|{}|{}", h.anchors, if h.onchain { "|onchain" } else { "" }, h.counterparty, h.offered, kinds.join("+"), class), class.starts_with("accepted"), vio, json!({"engine": "c09", "htlc": h})));
                 }
             }
         }
@@ -581,8 +594,8 @@ pub fn main(tier: Tier) -> i32 {
             }
         }
     }
-    if base_htlc_acc < 8 {
-        run.vacuous(&format!("only {} of 8 unmutated HTLC transactions were signed", base_htlc_acc));
+    if base_htlc_acc < 16 {
+        run.vacuous(&format!("only {} of 16 unmutated HTLC transactions were signed", base_htlc_acc));
     }
     if acc_sweeps == 0 {
         run.vacuous("no sweep was signed");
@@ -613,10 +626,10 @@ pub fn replay(v: &Value) {
     let rp = &v["replay"];
     for round in 0..2 {
         if let Ok(s) = serde_json::from_value::<Sweep>(rp["sweep"].clone()) {
-            let ctx = make_ctx(s.anchors);
+            let ctx = make_ctx(s.anchors, s.onchain);
             println!("round {}: {:?}", round, run_sweep(&ctx, &s));
         } else if let Ok(h) = serde_json::from_value::<HCase>(rp["htlc"].clone()) {
-            let ctx = make_ctx(h.anchors);
+            let ctx = make_ctx(h.anchors, h.onchain);
             println!("round {}: {:?}", round, run_htlc(&ctx, &h));
         } else {
             machinery_failure("unrecognised C09 replay");
